@@ -139,12 +139,18 @@ Next ==
 
 Spec == Init /\ [][Next]_vars
 
-\* all honest, synchronous: nobody is ever silent, every enabled delivery / timer eventually happens
-NextSync == \/ \E v \in Val : Timeout(v) \/ SyncBlock(v)
+\* all honest, synchronous: nobody is ever silent, every payload is eventually delivered, and timers are slower than
+\* the network - a timer fires only when no deliverable payload is left (what the harness calls a synchronous phase)
+Deliverable == \E v \in Val, m \in msgs : ENABLED Deliver(m, v)
+\* a backup's timer is longer than the primary's: it fires only after the primary of its view has proposed
+SyncTimeout(v) == /\ ~Deliverable
+                  /\ (v = PrimaryOf(view[v]) \/ Msg("PrepareRequest", PrimaryOf(view[v]), view[v]) \in msgs)
+                  /\ Timeout(v)
+NextSync == \/ \E v \in Val : SyncTimeout(v) \/ SyncBlock(v)
             \/ \E v \in Val, m \in msgs : Deliver(m, v)
 InitSync == Init /\ silent = {}
 SpecSync == InitSync /\ [][NextSync]_vars
-            /\ (\A v \in Val : WF_vars(Timeout(v)) /\ WF_vars(SyncBlock(v)))
+            /\ (\A v \in Val : WF_vars(SyncTimeout(v)) /\ WF_vars(SyncBlock(v)))
             /\ (\A u \in Val : WF_vars(\E m \in msgs : Deliver(m, u)))
 
 ----------------------------------------------------------------------------
